@@ -51,6 +51,7 @@ structure Repo where
   blobs : List (Dig × String) := []
   uploads : List Upload := []
   index : Index := {}
+  old : List Dig := []         -- blobs whose age was set beyond the grace period (everything else is recent)
   deriving Repr
 
 /-- a manifest body as the handlers can see it after `json.Unmarshal` -/
@@ -78,6 +79,12 @@ structure Conf where
   mlimit : Nat := 8388608
   rlimit : Nat := 4194304
   upmax : Nat := 0               -- 0 = unlimited
+  -- collection policy (config.ConfigGC)
+  untagged : Bool := false
+  dangling : Bool := false
+  withsubj : Bool := true
+  emptyrepo : Bool := true
+  grace : Bool := false          -- a grace period is configured (blob ages are `old` or recent)
   deriving Repr
 
 structure State where
@@ -87,6 +94,7 @@ structure State where
   names : List (Nat × Nat) := []      -- internal key ↦ public session number, assigned at first appearance
   defs : List (String × Body) := []   -- manifest bodies by content name
   resps : List (String × List Desc) := []          -- referrers responses by content name
+  disk : List Repo := []              -- content of the backing directory of a memory-over-directory store
   rcache : List ((String × String × String × String) × List (List Desc)) := []   -- page cache: (repo, subject, response digest, filter) ↦ pages
   deriving Repr
 
